@@ -4,6 +4,7 @@ use crate::exec::{OpRecord, World};
 use crate::world::{Ev, Rf};
 
 pub mod c06;
+pub mod c07;
 pub mod c08;
 pub mod c09;
 pub mod c10;
